@@ -8,6 +8,7 @@ use serde_json::{json, Value as Json};
 
 pub mod c07;
 pub mod c11;
+pub mod c01;
 pub mod c02;
 pub mod bfs;
 pub mod c03;
@@ -248,6 +249,7 @@ pub fn header_carriers_with(map: &[u8], pb: &[u8], all: bool) -> Vec<(&'static s
 /// counts as vacuous.
 pub fn run(rep: &Report) -> Option<u64> {
     match rep.id.as_str() {
+        "C01" => Some(c01::run(rep)),
         "C02" => Some(c02::run(rep)),
         "C03" => Some(c03::run_c03(rep)),
         "C04" => Some(c03::run_c04(rep)),
@@ -274,6 +276,7 @@ pub fn run(rep: &Report) -> Option<u64> {
 /// Oracle components a property applies to decode cases.
 pub fn checks_for(pid: &str) -> Checks {
     match pid {
+        "C01" => c01::CHECKS,
         "C02" => c02::CHECKS,
         "C07" => c07::CHECKS,
         "C08" => c08::CHECKS,
@@ -293,8 +296,8 @@ pub fn selftest() -> Result<usize, String> {
     Ok(0)
 }
 
-pub fn child(_args: &[String]) -> i32 {
-    2
+pub fn child(args: &[String]) -> i32 {
+    c01::child(args)
 }
 
 /// Replay one recorded case without the explorer.  Exit code 1 if the violation reproduces.
@@ -330,6 +333,8 @@ pub fn replay(path: &str) -> i32 {
                 return 2;
             }
         }
+    } else if d["kind"] == "rung" {
+        c01::replay_rung(d, &mut l);
     } else {
         // search the space for the recorded case
         let tier = if j["tier"] == "thorough" { Tier::Thorough } else { Tier::Quick };
